@@ -165,7 +165,48 @@ def _cmp_series(case, who, name, got, want, rtol, label):
         _fail(case, "%s: %s[%d] = %.9g, expected %.9g (relative tolerance %.0e)" % (who, name, i, float(got[i]), float(want[i]), rtol))
 
 
-def _cmp_report(case, who, got, want, exact):
+def _illumination(pt):
+    """Harness-side illumination map of the object grid: sum over scan positions of the initial probe
+    intensity scattered to the patch indices (np.add.at).  Returns a boolean (H, W) mask of the
+    well-illuminated pixels (> 5 % of the maximum)."""
+    idx = _np(pt.dset.patch_indices).astype(np.int64)
+    p = np.sum(np.abs(np.array(pt.probe)) ** 2, axis=0)
+    shape = tuple(int(v) for v in pt.obj_shape_full[-2:])
+    ill = np.zeros(shape[0] * shape[1])
+    np.add.at(ill, idx.ravel(), np.broadcast_to(p, idx.shape).ravel())
+    return (ill > 0.05 * ill.max()).reshape(shape)
+
+
+def _cmp_obj(case, who, got, want, view):
+    """Continuation comparison of the object.
+
+    potential objects: every pixel.  complex / pure_phase objects: the well-illuminated pixels, modulo one
+    global phase factor.  Reason: for these types the mean phase is subtracted inside the forward model, so
+    every pixel's gradient carries -mean(h), where sum(h) == 0 analytically (global-phase invariance): the
+    term is pure rounding noise, it is all a never-illuminated pixel sees, and Adam's normalisation turns it
+    into steps of order lr whose sign depends on the summation order (which legitimately differs after a
+    reload: the pattern order is re-seeded).  Those pixels never enter the forward model; through the
+    mean-phase subtraction of the `obj` property they shift the reported object by a global phase."""
+    got = np.asarray(got)
+    want = np.asarray(want)
+    if got.shape != want.shape:
+        _fail(case, "%s: obj has shape %s, expected %s" % (who, got.shape, want.shape))
+    if not view["gauge"]:
+        return _cmp_arr(case, who, "obj", got, want, ARR_RTOL, ARR_ATOL, "obj")
+    W = view["W"]
+    g = got[:, W]
+    w = want[:, W]
+    if not np.all(np.isfinite(g)):
+        _fail(case, "%s: obj is not finite where the reference is" % who)
+    z = np.sum(g * np.conj(w))
+    ph = z / abs(z) if abs(z) > 0 else 1.0
+    err = float(np.max(np.abs(g * np.conj(ph) - w)))
+    tol = ARR_ATOL + ARR_RTOL * float(np.max(np.abs(w)))
+    if _stat("obj", err, tol) > 1.0:
+        _fail(case, "%s: obj differs by %.3e on the illuminated pixels after removing a global phase (tolerance %.3e)" % (who, err, tol))
+
+
+def _cmp_report(case, who, got, want, exact, view=None):
     """exact=True: 'reports the same' right after load/clone/save; else continuation tolerance."""
     for key in want:
         if key not in got:
@@ -186,6 +227,8 @@ def _cmp_report(case, who, got, want, exact):
         if name in want:
             if exact:
                 _cmp_arr(case, who, name, got[name], want[name], SAME_RTOL, SAME_ATOL, "same_" + name)
+            elif name == "obj":
+                _cmp_obj(case, who, got[name], want[name], view)
             else:
                 _cmp_arr(case, who, name, got[name], want[name], ARR_RTOL, ARR_ATOL, name)
 
@@ -346,6 +389,7 @@ def _check_resume(ctx, case):
         A = build.build(case)
         P = build.build(case)
         init_obj = np.array(A.obj)
+        view = {"gauge": case["obj_type"] != "potential" and bool(case["autograd"]), "W": _illumination(A)}
         _first_call(A, case, segs[0])
         refs = [_report(A)]
         for i in range(1, len(segs)):
@@ -374,7 +418,7 @@ def _check_resume(ctx, case):
         p0 = _report(P)
     # two identically built and identically driven objects agree (harness sanity: determinism)
     try:
-        _cmp_report(case, "P", p0, refs[0], exact=False)
+        _cmp_report(case, "P", p0, refs[0], exact=False, view=view)
     except core.Violation as v:
         raise core.HarnessError("two identical uninterrupted runs disagree: %s" % v.msg)
 
@@ -388,7 +432,7 @@ def _check_resume(ctx, case):
             with ctx.sut(case, "%s: reconstruct() call %d" % (who, i + 1)):
                 _later_call(o, case, spec, segs[i])
                 got = _report(o)
-            _cmp_report(case, "%s after call %d vs the uninterrupted run" % (who, i + 1), got, refs[i], exact=False)
+            _cmp_report(case, "%s after call %d vs the uninterrupted run" % (who, i + 1), got, refs[i], exact=False, view=view)
         if i + 1 < len(segs):
             store2 = "dir" if case["store"] == "zip" else "zip"
             B = _save_load(ctx, case, "boundary %d (second-generation)" % (i + 1), B, store2, case.get("load_device"))
@@ -575,7 +619,7 @@ def _scheduler(draw, n):
             return {"type": draw(st.sampled_from(["exp", "gamma"])), "gamma": draw(st.sampled_from([0.5, 0.8, 0.9, 0.95]))}
         return {"type": "exp", "factor": draw(st.sampled_from([0.01, 0.1, 0.5])), "_needs_iters": True}
     if t == "linear":
-        d = {"type": "linear", "start_factor": draw(st.sampled_from([0.1, 0.5, 1.0])), "end_factor": draw(st.sampled_from([1.0, 0.2, 2.0]))}
+        d = {"type": "linear", "start_factor": draw(st.sampled_from([0.1, 0.5, 1.0])), "end_factor": draw(st.sampled_from([1.0, 0.2, 0.5]))}
         if draw(st.booleans()):
             d["total_iters"] = draw(st.integers(1, max(1, n)))
         else:
@@ -588,7 +632,7 @@ def _scheduler(draw, n):
         d["mode"] = draw(st.sampled_from(["triangular2", "triangular", "exp_range"]))
         return d
     return {
-        "type": draw(st.sampled_from(["plateau", "plat"])),
+        "type": "plateau",
         "patience": draw(st.integers(0, 1)),
         "cooldown": draw(st.integers(0, 1)),
         "factor": draw(st.sampled_from([0.5, 0.1])),
@@ -601,16 +645,20 @@ def _strip(d):
 
 
 @st.composite
-def _constraints(draw, S, M, with_dataset_opt, minimal=False):
+def _constraints(draw, S, M, with_dataset_opt, tv_ok):
+    """tv_ok: total-variation weights on the object are only drawn when the object starts from a random
+    array.  |x| has a kink at 0: from a uniform start neighbouring pixels are tied exactly (or up to
+    rounding), the sign of their difference -- and with it a gradient term of size weight/N -- is then
+    decided by rounding noise, which legitimately differs between a run and its reloaded continuation."""
     c = {}
     o = {}
     if draw(st.booleans()):
         o["positivity"] = draw(st.booleans())
     if S > 1 and draw(st.booleans()):
         o["identical_slices"] = draw(st.booleans())
-    if draw(st.integers(0, 2)) == 0:
+    if tv_ok and draw(st.integers(0, 2)) == 0:
         o["tv_weight_xy"] = draw(st.sampled_from([0, 1e-3, 1e-2, 0.1]))
-    if S > 1 and draw(st.integers(0, 2)) == 0:
+    if tv_ok and S > 1 and draw(st.integers(0, 2)) == 0:
         o["tv_weight_z"] = draw(st.sampled_from([0, 1e-3, 1e-2]))
     if o:
         c["object"] = o
@@ -634,7 +682,7 @@ def _constraints(draw, S, M, with_dataset_opt, minimal=False):
 
 @st.composite
 def _problem(draw):
-    with_ds = draw(st.integers(0, 3)) == 0
+    with_ds = draw(st.integers(0, 3)) == 3
     M = draw(st.sampled_from([1, 1, 2]))
     S = draw(st.sampled_from([1, 1, 2]))
     keys = ["object"] + (["probe"] if draw(st.integers(0, 4)) > 0 else []) + (["dataset"] if with_ds else [])
@@ -659,7 +707,7 @@ def _problem(draw):
 def resume_cases(draw):
     c = draw(_problem())
     n = draw(st.integers(2, 6))
-    nb = 2 if (n >= 3 and draw(st.integers(0, 4)) == 0) else 1
+    nb = 2 if (n >= 3 and draw(st.integers(0, 4)) == 4) else 1
     if nb == 1:
         k = draw(st.one_of(st.integers(1, n - 1), st.integers(0, n)))
         segs = [k, n - k]
@@ -680,13 +728,13 @@ def resume_cases(draw):
             if s:
                 sched[key] = _strip(s)
     c["sched"] = sched
-    c["constraints"] = draw(_constraints(c["S"], c["M"], with_ds))
+    c["constraints"] = draw(_constraints(c["S"], c["M"], with_ds, c["obj_init"] == "array"))
     later = []
     for _ in range(len(segs) - 1):
         sp = {}
         r = draw(st.integers(0, 9))
         if r in (0, 1):
-            sp["constraints"] = draw(_constraints(c["S"], c["M"], with_ds))
+            sp["constraints"] = draw(_constraints(c["S"], c["M"], with_ds, c["obj_init"] == "array"))
         elif r == 2:
             key = draw(st.sampled_from(keys))
             s = _strip(draw(_scheduler(n)))
@@ -702,17 +750,17 @@ def resume_cases(draw):
             sp.pop("sched", None)
     c["later"] = later
     c["segments"] = segs
-    if c["M"] == 1 and not with_ds and draw(st.integers(0, 5)) == 0:
+    if c["M"] == 1 and not with_ds and draw(st.integers(0, 5)) == 5:
         c["autograd"] = False
-    elif draw(st.integers(0, 5)) == 0:
+    elif draw(st.integers(0, 5)) == 5:
         c["loss_type"] = draw(st.sampled_from(["l1_amplitude", "l2_intensity", "poisson"]))
     c.update(
         kind="resume",
         store=draw(st.sampled_from(["zip", "dir"])),
         load_device=draw(st.sampled_from([None, None, "cpu"])),
-        snap=draw(st.integers(0, 3)) == 0,
+        snap=draw(st.integers(0, 3)) == 3,
         batch=draw(st.sampled_from(["none", "none", "num"])),
-        device_arg=draw(st.integers(0, 4)) == 0,
+        device_arg=draw(st.integers(0, 4)) == 4,
     )
     return c
 
@@ -726,7 +774,7 @@ def skip_cases(draw):
     keys = list(c["opt"])
     if draw(st.booleans()):
         c["sched"] = {keys[0]: {"type": "exp", "gamma": 0.8}}
-    c["constraints"] = draw(_constraints(c["S"], c["M"], "dataset" in keys))
+    c["constraints"] = draw(_constraints(c["S"], c["M"], "dataset" in keys, c["obj_init"] == "array"))
     c["iters"] = draw(st.integers(1, 3))
     ns = draw(st.integers(2, 3))
     saves = []
@@ -746,10 +794,10 @@ def skip_cases(draw):
                 "form": draw(st.sampled_from(["list", "tuple", "str"])),
                 "raw": raw,
                 "store": draw(st.sampled_from(["zip", "dir"])),
-                "reuse": (not last) and i > 0 and draw(st.integers(0, 3)) == 0,
+                "reuse": (not last) and i > 0 and draw(st.integers(0, 3)) == 3,
             }
         )
-    if draw(st.integers(0, 3)) == 0:
+    if draw(st.integers(0, 3)) == 3:
         # the caller keeps one list and passes it to every call, including the final complete one
         saves[-1]["reuse"] = True
         saves[-1]["raw"] = True
